@@ -349,8 +349,8 @@ func (f *File) seekWithoutLocking(offset int64, whence int) (int64, error) {
 					return
 				}
 
-				// TODO: Handle error
-				panic(err)
+				// Hand the error to the reader instead of crashing the process
+				_ = writer.CloseWithError(err)
 			}
 		}()
 
@@ -529,8 +529,8 @@ func (f *File) Read(p []byte) (n int, err error) {
 					return
 				}
 
-				// TODO: Handle error
-				panic(err)
+				// Hand the error to the reader instead of crashing the process
+				_ = writer.CloseWithError(err)
 			}
 		}()
 
